@@ -15,6 +15,9 @@ ASSUMPTIONS = [
     "nested roots: QBase(type) <- QA, QBase <- QPoly (its own Config discriminator on 'kind') <- QTri; outer tag in {poly, a, zz, "
     "absent} x inner tag in {tri, zz, absent} x (QTri defined before / after the first call): the inner root's "
     "MissingDiscriminatorError / SuitableVariantNotFoundError must surface unchanged",
+    "'hard' families: tags {a, an unhashable list, '', absent}; class A (and C through inheritance) has a __post_init__ that raises "
+    "KeyError for the payload x == 13: after every decode event the same tag is decoded again with that payload, and the KeyError "
+    "must surface as it is (the tag is known, the class was selected)",
     "no-field mode: hierarchy NBase <- NA <- NC, NBase <- NB of mixin or plain dataclasses; the point at which the decoder / holder "
     "class is created (after 0..3 subclasses exist) and the point of a first call (after 0..3 subclasses, or never) are solver "
     "variables; which required keys are present and whether NA's constructor "
@@ -39,6 +42,9 @@ FAMILIES = [
     # a second discriminated field with ANOTHER tagger function, declared first in the same holder
     ("annotated_two_taggers", "style='annotated', tagger=True, two=True"),
     # Config discriminator on a plain root, holder typed with the bare root; calls alternating from_dict / from_json
+    # an unhashable tag value; a variant whose own __post_init__ raises KeyError for one payload (must surface unchanged)
+    ("config_hard", "style='config', hard=True"), ("annotated_hard", "style='annotated', hard=True"),
+    ("codec_hard", "style='codec', hard=True"), ("annotated_plain_hard", "style='annotated', mixin=False, hard=True"),
     ("nested_plain_cross", "style='nested', mixin=False, cross=True"), ("annotated_plain_cross", "style='annotated', mixin=False, cross=True"),
 ]
 THOROUGH_ONLY = [
@@ -52,7 +58,8 @@ def harnesses(tier, seed):
     k = 3 if tier == "quick" else 4
     for name, kw in FAMILIES + (THOROUGH_ONLY if tier != "quick" else []):
         kws = "k=%d, %s" % (k, kw)
-        hs.append(gen.custom_harness("C12", "c12", Schema("hist_" + name, "int", ""), "hist", "k=%d" % k, kws))
+        hs.append(gen.custom_harness("C12", "c12", Schema("hist_" + name, "int", ""), "hist",
+                                     "k=%d%s" % (k, ", hard=True" if "hard=True" in kw else ""), kws))
     for name, kw in (("config", "style='config'"), ("config_tagger", "style='config', tagger=True")):
         hs.append(gen.custom_harness("C12", "c12", Schema("step_" + name, "int", ""), "step", "", kw))
     for name, kw in (("config", "style='config'"), ("annotated", "style='annotated'"), ("codec", "style='codec'"),
